@@ -802,6 +802,14 @@ func validateLeaseSet2Inputs(
 	if err := validateEncryptionKeyInputs(encryptionKeys); err != nil {
 		return err
 	}
+	// The structural rules of LeaseSet2.Validate also hold for what the constructor builds:
+	// key lengths must match their type's size and the reserved flag bits must be zero.
+	if err := validateEncryptionKeys(encryptionKeys); err != nil {
+		return err
+	}
+	if err := validateReservedFlagsAndLeases(flags, leases); err != nil {
+		return err
+	}
 	return validateLeaseInputs(leases)
 }
 
